@@ -26,7 +26,7 @@ lazy_static! {
 
 /// Whether the given line ends in something that reads as a ` (<kind><quantifier>)`
 /// modifier when it is parsed as an expectation
-fn ends_in_modifier(line: &str) -> bool {
+pub(crate) fn ends_in_modifier(line: &str) -> bool {
     EXPECTATION_LINE.captures(line).is_some_and(|captures| {
         captures.get(2).is_some_and(|kind| !kind.as_str().is_empty()) || captures.get(3).is_some()
     })
